@@ -8,6 +8,7 @@
   and re-parsed, compared with the model; fresh-export oracle on the implementation).
 -/
 import Lemmas.World
+import Lemmas.WorldInv
 namespace C01
 open BestPath World
 
@@ -25,6 +26,37 @@ theorem delta_correct (g : Global) (t : PeerCfg) (hrs : t.isRSClient = false)
       b.src.equal o.src = true → b.src = o.src) :
     heldApply (wantOf g t oldL) (deltaFor g t oldL newL) = wantOf g t newL :=
   World.delta_correct g t hrs oldL newL wfO wfEq
+
+/-- the speaker before anything happened: configured peers, all sessions down, empty Loc-RIB -/
+def init (g : Global) (cfgs : List PeerCfg) : W :=
+  { g := g, peers := cfgs.map (fun c => { cfg := c }) }
+
+/-- **C01_quiescent.** For every configuration of peers with pairwise different neighbour
+    addresses and every history of session up / session down (non-graceful) / announcement /
+    replacement / withdrawal events (each event = one lock-protected region of the Go code, with
+    the queued output applied): every established peer that is not a route-server client holds,
+    for EVERY destination, exactly the export of the current best path — the route an initial
+    table transfer would send now. Nothing that left the Loc-RIB stays advertised, no exportable
+    best path is missing. By induction over the history with the invariant `World.Inv`;
+    the per-step heart is `delta_correct`. -/
+theorem C01_quiescent (g : Global) (cfgs : List PeerCfg)
+    (haddr : cfgs.Pairwise (fun a b => a.addr ≠ b.addr))
+    (hidx : cfgs.Pairwise (fun a b => a.idx ≠ b.idx))
+    (ops : List WOp) :
+    let w := ops.foldl step (init g cfgs)
+    ∀ ps ∈ w.peers, ps.up = true → ps.cfg.isRSClient = false →
+      ∀ pfx, heldOf ps.view pfx = wantOf w.g ps.cfg (w.ribOf pfx) := by
+  intro w
+  have h0 : Inv (init g cfgs) := by
+    refine ⟨⟨?_, ?_⟩, List.Pairwise.nil, ?_, ?_⟩
+    · simp only [init, List.pairwise_map]; exact haddr
+    · simp only [init, List.pairwise_map]; exact hidx
+    · intro e he; cases he
+    · intro ps hps hup
+      simp only [init, List.mem_map] at hps
+      obtain ⟨c, _, rfl⟩ := hps
+      cases hup
+  exact (run_inv (init g cfgs) ops h0).views
 
 /-- the export decision in closed form (loop prevention): see `exportableF` -/
 theorem export_rule (g : Global) (t : PeerCfg) (r : Cand) :
@@ -67,5 +99,17 @@ example : wantOf g0 nonClient [fromClient] = some 1 := by decide
 /-- … the new best from another non-client peer is not exportable, and the fan-out withdraws -/
 example : heldApply (some 1) (deltaFor g0 nonClient [fromClient] [fromOther, fromClient]) = none := by decide
 example : wantOf g0 nonClient [fromOther, fromClient] = none := by decide
+
+/-- a three-peer history through `C01_quiescent`'s world: the client's route is reflected, then
+    displaced by a non-client's route, and the non-client peer ends up holding nothing -/
+def hist : List WOp :=
+  [.up 0, .up 1, .up 2,
+   .ann 1 { (default : Cand) with pfx := 7, marker := 1, origin := some 0, segs := [⟨2, [300, 400]⟩] },
+   .ann 2 { (default : Cand) with pfx := 7, marker := 2, origin := some 0, segs := [⟨2, [300]⟩] }]
+
+example : ((hist.take 4).foldl step (init g0 [nonClient, client, other])).peers.map (fun ps => heldOf ps.view 7)
+    = [some 1, none, some 1] := by decide
+example : (hist.foldl step (init g0 [nonClient, client, other])).peers.map (fun ps => heldOf ps.view 7)
+    = [none, some 2, none] := by decide
 
 end C01
